@@ -123,7 +123,7 @@ class C20(Prop):
     classes = {"T2": 1}
     bits = {4: "two display styles describe different multisets of (file, lint, severity, start position, message)",
             8: "a display style crashed on a diagnostic that another style printed (range on character boundaries)",
-            16: "json/json2 output: a line is not a JSON object, the two differ, or offsets and line/column disagree with the source text"}
+            16: "json/json2 output: a line is not a JSON object, the two differ, offsets and line/column disagree with the source text, or label messages / secondary labels / notes are not the diagnostic's"}
     rule = ("one file per case: lint-test corpus files and hand-written templates (multi-line, zero-width, "
             "non-ASCII-adjacent ranges, parse and tokenizer errors), byte-level mutations (non-ASCII prefixes, strings "
             "and comments, CRLF, BOM, tabs, missing final newline) x 3 configurations; each run through the real "
@@ -182,6 +182,14 @@ class C20(Prop):
                 for f, v in res.items():
                     lib[(cname, f)] = v
 
+        # how the file is named on the command line: every style prints that name
+        forms = [rnd.choice(["plain", "plain", "plain", "dot", "abs", "updown"]) for _ in range(n)]
+
+        def arg_of(i):
+            cname, name = cases[i][0], "f%d.lua" % i
+            return {"plain": name, "dot": "./" + name, "abs": os.path.join(proj, cname, name),
+                    "updown": "../%s/%s" % (cname, name)}[forms[i]]
+
         def one(i):
             if only is not None and only != i:
                 return None
@@ -189,7 +197,7 @@ class C20(Prop):
             outs = {}
             for st in STYLES:
                 rc, out, err = cli.run_selene(os.path.join(proj, cname),
-                                              cli.style_args(st) + ["--num-threads", "1", "--no-summary", "f%d.lua" % i])
+                                              cli.style_args(st) + ["--num-threads", "1", "--no-summary", arg_of(i)])
                 outs[st] = (rc, out, err)
             return outs
 
@@ -201,13 +209,13 @@ class C20(Prop):
             if runs[i] is None:
                 items.append(("", {}))
                 continue
-            items.append(self.case_term(i, cname, origin, text, lib.get((cname, "f%d.lua" % i), {}), runs[i]))
+            items.append(self.case_term(i, cname, origin, text, lib.get((cname, "f%d.lua" % i), {}), runs[i], arg_of(i)))
         cli.write_shards(wd, "C20", items, only=only)
         shutil.rmtree(proj, ignore_errors=True)
         return True, ""
 
-    def case_term(self, i, cname, origin, text, libout, outs):
-        fname = "f%d.lua" % i
+    def case_term(self, i, cname, origin, text, libout, outs, fname=None):
+        fname = fname or "f%d.lua" % i
         ids = {}
 
         def ident(kind, v):
@@ -263,6 +271,19 @@ class C20(Prop):
         if j1[0] is not None and j2[0] is not None:
             json_same = json_same and [d["raw"] for d in j1[0]] == \
                 [{k: v for k, v in d["raw"].items() if k != "type"} for d in j2[0]]
+        # json / json2 carry the whole diagnostic: label messages, secondary labels (place and message) and notes
+        if not parse_file and src_diags is not None:
+            want = sorted((d["code"], d["start"], d["end"], d["message"], d.get("label") or "",
+                           tuple((a, b, m or "") for a, b, m in d.get("secondary", [])), tuple(d.get("notes", [])))
+                          for d in libout.get("diags", []) if d["severity"] != "Allow")
+            for st in ("json", "json2"):
+                if parsed[st][0] is None:
+                    continue
+                got = sorted((d["code"], d["start"], d["end"], d["message"], d["raw"]["primary_label"].get("message") or "",
+                              tuple((s["span"]["start"], s["span"]["end"], s.get("message") or "") for s in d["raw"]["secondary_labels"]),
+                              tuple(d["raw"].get("notes", []))) for d in parsed[st][0])
+                if got != want:
+                    json_same = False
         lcr = parsed["luacheck-ranges"][0]
         if lcr is None:
             lcr_t = "None"
@@ -278,7 +299,7 @@ class C20(Prop):
             obs("luacheck"), lcr_t, cli.glist(labels), cli.gbool(json_same))
         ndi = len(src_diags or [])
         kind = "lib-panic" if src_diags is None else ("parse-error" if parse_file else ("lint" if ndi else "clean"))
-        desc = {"kind": kind, "config": cname, "origin": origin, "source": text, "ndiags": ndi,
+        desc = {"kind": kind, "config": cname, "origin": origin, "source": text, "ndiags": ndi, "named_as": fname,
                 "exit": {st: outs[st][0] for st in STYLES},
                 "crashed": [st for st in STYLES if parsed[st][0] is None],
                 "stderr": {st: outs[st][2][-300:] for st in STYLES if parsed[st][0] is None},
